@@ -7,6 +7,7 @@ import (
 	"mltwist/internal/deps"
 	"mltwist/internal/parser"
 	"mltwist/pkg/expr"
+	"mltwist/pkg/expr/exprtools"
 	"mltwist/pkg/model"
 	"sort"
 )
@@ -26,6 +27,7 @@ type absIns struct {
 	JK       string   `json:"jk"` // none | next | const | cond | ind | two
 	T        []int    `json:"t"`  // jump targets (offsets)
 	Text     string   `json:"text"`
+	AddrReg  string   `json:"addrreg"` // if set: memory accesses use this register (one of Rd) as address instead of a constant
 }
 
 type depsCase struct {
@@ -97,15 +99,23 @@ func buildIns(base uint64, idx int, a absIns) parser.Instruction {
 	addr := model.Addr(base + uint64(a.Addr))
 	next := model.Addr(base + uint64(a.Addr) + uint64(a.Len))
 	var sum expr.Expr = expr.NewConstUint(uint64(0x0101010101010101)*uint64(idx+1)+uint64(idx)*0x3d, expr.Width64)
+	// memory address: a per-space constant, or computed from a register (kept inside a 4 KiB window)
+	memAddr := func(m string) expr.Expr {
+		if a.AddrReg == "" {
+			return expr.NewConstUint(memAddrOf(m), expr.Width64)
+		}
+		masked := exprtools.BitAnd(expr.NewRegLoad(regKey(a.AddrReg), expr.Width64), expr.NewConstUint(uint64(0xFF8), expr.Width64), expr.Width64)
+		return expr.NewBinary(expr.Add, masked, expr.NewConstUint(memAddrOf(m), expr.Width64), expr.Width64)
+	}
 	for _, r := range a.Rd {
-		if r == "ip" {
+		if r == "ip" || r == a.AddrReg {
 			continue
 		}
 		sum = expr.NewBinary(expr.Add, expr.NewBinary(expr.Mul, sum, expr.NewConstUint(uint64(3), expr.Width64), expr.Width64),
 			expr.NewRegLoad(regKey(r), expr.Width64), expr.Width64)
 	}
 	for _, m := range a.Ld {
-		ld := expr.NewMemLoad(expr.NewKey(m), expr.NewConstUint(memAddrOf(m), expr.Width64), expr.Width64)
+		ld := expr.NewMemLoad(expr.NewKey(m), memAddr(m), expr.Width64)
 		sum = expr.NewBinary(expr.Add, expr.NewBinary(expr.Mul, sum, expr.NewConstUint(uint64(5), expr.Width64), expr.Width64),
 			ld, expr.Width64)
 	}
@@ -119,7 +129,7 @@ func buildIns(base uint64, idx int, a absIns) parser.Instruction {
 	}
 	for k, m := range a.St {
 		v := expr.NewBinary(expr.Add, sum, expr.NewConstUint(uint64(k+17), expr.Width64), expr.Width64)
-		effs = append(effs, expr.NewMemStore(v, expr.NewKey(m), expr.NewConstUint(memAddrOf(m), expr.Width64), expr.Width64))
+		effs = append(effs, expr.NewMemStore(v, expr.NewKey(m), memAddr(m), expr.Width64))
 	}
 	tgt := func(i int) expr.Expr { return expr.NewConstUint(base+uint64(a.T[i]), expr.Width64) }
 	cond := func(t, f expr.Expr) expr.Expr {
